@@ -5,20 +5,24 @@ import PsModel.Gen.Const
 Mirrors the code as it is:
 * `process_all_requirements` l.64–68 → `selectFiles` (one non-recursive `glob` per entry of
   `Gen.REQUIREMENTS_PATHS`, in that order) and `allLines`
-* l.72–102 → `parseLine` (`#` cut, `strip`, `split("==")`, reject when more than two parts or any of `, > <`)
-* l.104–179 → `branch` (the five-way case split on the *recorded* and the *new* version string, including that
-  the first recorded string is never validated, that `""` is falsy, and that a `Version()` failure skips the
-  line) and `merge1` (what each branch does to the table)
-* `install_requirements` l.205–310 → `decidePkg` / `decideLoop` / `phase1`, `installArgs`, `recUpdate`,
+* l.72–104 → `parseLine` (`#` cut, `strip`, `split("==")`, reject when more than two parts or any pattern of the
+  rejection set `Cfg.specPats` occurs as a substring) and `rejectedByFix` (`Version(new_version)` right after `new_version = parts[1]`)
+* l.106–181 → `branch` (the five-way case split on the *recorded* and the *new* version string, including that
+  the recorded string is not validated by the split itself, that `""` is falsy, and that a `Version()` failure skips
+  the line) and `merge1` (what each branch does to the table)
+* `install_requirements` l.207–312 → `decidePkg` / `decideLoop` / `phase1`, `installArgs`, `recUpdate`,
   `resolveUnpinned` (= `update_unpinned_versions`) / `phase2`
 * the environment (site-packages + package index behind Home Assistant's installer) → `World`, `installAll`.
 
 Strings are `List Char`.  Versions are abstract: `Ver V` gives `parse : Str → Option V` (`Version(s)`, `none` =
 `InvalidVersion`) and `le` (`Version.__le__`); theorems assume only that `le` is a total preorder.  `numVer` is the
-instance used by the driver and by the `_cex` theorems (numeric dotted versions, trailing zeros insignificant).
+instance used by the driver and by the `_cex` theorems (numeric dotted versions with an optional epoch `N!`, trailing zeros insignificant).
 
-`Cfg.validateFirstPin` is the deviation flag of DESIGN §4: `false` = the code today, `true` = the repair
-suggested in finding C20-F1 (validate a pin before it is looked at at all).
+`Cfg` carries the two deviation parameters of DESIGN §4.  `current` is the code today, i.e. after the three `fix:`
+commits of /repo (e2ec6b7: `validateFirstPin := true`, a pin is validated before it is looked at at all – findings
+C20-F1, F2, F4; d07dfc5 refined by 5d02a52: `specPats := "," ">" "<" "~=" "!="`, substring patterns, so that a version
+epoch such as `==1!2.0` is not rejected – finding C20-F3).  `Cfg.preFix` is the shape before them
+(`validateFirstPin := false`, `specPats := "," ">" "<"`); the `_regress_` theorems are stated against it.
 -/
 namespace PsModel.C20
 
@@ -29,11 +33,20 @@ structure Ver (V : Type) where
   le : V → V → Bool
 
 structure Cfg where
+  /-- `Version(new_version)` is called as soon as a pin has been split off (l.102–103) -/
   validateFirstPin : Bool
+  /-- the patterns of `any(spec in pkg for spec in (…))` (l.88): a line containing one of them as a substring is
+  rejected -/
+  specPats : List Str
 deriving DecidableEq, Repr
 
-/-- flag values matching the code today -/
-def current : Cfg := { validateFirstPin := false }
+/-- parameter values matching the code today (the correspondence check is what certifies them) -/
+def current : Cfg :=
+  { validateFirstPin := true, specPats := [[','], ['>'], ['<'], ['~', '='], ['!', '=']] }
+
+/-- before the two `fix:` commits: the first pin is never validated (l.102–103 absent) and the rejection test is
+`"," in pkg or ">" in pkg or "<" in pkg` -/
+def Cfg.preFix : Cfg := { validateFirstPin := false, specPats := [[','], ['>'], ['<']] }
 
 /-- `UNPINNED_VERSION` -/
 def UNP : Str := Gen.UNPINNED_VERSION.toList
@@ -56,22 +69,30 @@ def splitEq : Str → Str → List Str
   | '=' :: '=' :: rest, acc => acc.reverse :: splitEq rest []
   | c :: rest, acc => splitEq rest (c :: acc)
 
-/-- `"," in pkg or ">" in pkg or "<" in pkg` -/
-def hasSpecChar (s : Str) : Bool := s.contains ',' || s.contains '>' || s.contains '<'
+/-- `pat in s` for strings: `pat` occurs as a contiguous substring -/
+def hasSub (pat : Str) : Str → Bool
+  | [] => pat.isEmpty
+  | c :: cs => pat.isPrefixOf (c :: cs) || hasSub pat cs
+
+/-- `any(spec in pkg for spec in pats)` -/
+def hasSpecPat (pats : List Str) (s : Str) : Bool := pats.any (fun p => hasSub p s)
 
 /-- what is left of a line after comment removal and `strip` -/
 def body (raw : Str) : Str := strip (cutComment raw)
 
 /-- `(pkg_name, pin)`; `pin = none` for an unpinned line; `none` = the line is skipped (l.82, l.89–98) -/
-def parseParts (pkg : Str) : Option (Str × Option Str) :=
-  if hasSpecChar pkg then none
+def parseParts (pats : List Str) (pkg : Str) : Option (Str × Option Str) :=
+  if hasSpecPat pats pkg then none
   else match splitEq pkg [] with
     | [n] => some (n, none)
     | [n, v] => some (n, some v)
     | _ => none
 
-def parseLine (raw : Str) : Option (Str × Option Str) :=
-  if (body raw).isEmpty then none else parseParts (body raw)
+/-- one line under the rejection set `pats` -/
+def parseLineWith (pats : List Str) (raw : Str) : Option (Str × Option Str) :=
+  if (body raw).isEmpty then none else parseParts pats (body raw)
+
+def parseLine (cfg : Cfg) (raw : Str) : Option (Str × Option Str) := parseLineWith cfg.specPats raw
 
 /-- `new_version` -/
 def newVersion : Option Str → Str
@@ -108,13 +129,13 @@ def modify (t : Table) (n : Str) (f : Entry → Entry) : Table :=
   t.map (fun x => if x.name = n then f x else x)
 
 inductive Branch where
-  | record      -- l.107 `if not current_pinned_version`, and l.129 (pinned replaces unpinned)
-  | keep        -- l.115 (unpinned vs recorded pin), l.167 (recorded is higher), and `except ValueError`
-  | addSource   -- l.146
-  | bump        -- l.152
+  | record      -- l.109 `if not current_pinned_version`, and l.131 (pinned replaces unpinned)
+  | keep        -- l.117 (unpinned vs recorded pin), l.169 (recorded is higher), and `except ValueError`
+  | addSource   -- l.148
+  | bump        -- l.154
 deriving DecidableEq, Repr
 
-/-- the case split of l.107–167 on the recorded version string `cur` (`none` = package not in the table) and
+/-- the case split of l.109–169 on the recorded version string `cur` (`none` = package not in the table) and
 the new one.  `Version(cur)` is evaluated before `Version(new)`; either failing skips the line. -/
 def branch {V} (ver : Ver V) (cur : Option Str) (new : Str) : Branch :=
   match cur with
@@ -149,7 +170,8 @@ def merge1 {V} (ver : Ver V) (site : Str → Option Str) (t : Table) (src : Nat)
   | .bump => modify t name (setVer src new)
   | .keep => t
 
-/-- the repair of C20-F1: a pin that is not a version is dropped before anything else looks at it -/
+/-- l.102–103 (the repair of C20-F1/F2/F4): a pin that is not a version is dropped before anything else looks at
+it – `Version(new_version)` raises `InvalidVersion`, a `ValueError`, and the enclosing `except` skips the line -/
 def rejectedByFix {V} (cfg : Cfg) (ver : Ver V) (pin : Option Str) : Bool :=
   cfg.validateFirstPin && (match pin with
     | some v => (ver.parse v).isNone
@@ -157,7 +179,7 @@ def rejectedByFix {V} (cfg : Cfg) (ver : Ver V) (pin : Option Str) : Bool :=
 
 /-- one line of one file -/
 def processLine {V} (cfg : Cfg) (ver : Ver V) (site : Str → Option Str) (t : Table) (l : Nat × Str) : Table :=
-  match parseLine l.2 with
+  match parseLine cfg l.2 with
   | none => t
   | some (name, pin) =>
     if rejectedByFix cfg ver pin then t else merge1 ver site t l.1 name (newVersion pin)
@@ -228,22 +250,22 @@ deriving DecidableEq, Repr
 
 def veq {V} (ver : Ver V) (a b : V) : Bool := ver.le a b && ver.le b a
 
-/-- l.219–283 for one package; `recd` = `pyscript_installed_packages.get(package)` at that moment -/
+/-- l.221–285 for one package; `recd` = `pyscript_installed_packages.get(package)` at that moment -/
 def decidePkg {V} (ver : Ver V) (recd : Option Str) (e : Entry) : PkgDec :=
   match truthy e.installed with
-  | none => .install                                          -- l.281
+  | none => .install                                          -- l.283
   | some inst =>
-    if e.version = UNP then                                   -- l.226
+    if e.version = UNP then                                   -- l.228
       match recd with
-      | some r => if r ≠ inst then .pop else .nothing         -- string comparison (l.235–239)
+      | some r => if r ≠ inst then .pop else .nothing         -- string comparison (l.237–241)
       | none => .nothing
     else match recd with
-      | none => .nothing                                      -- l.271: installed by somebody else
+      | none => .nothing                                      -- l.273: installed by somebody else
       | some r =>
         match ver.parse r, ver.parse inst with
         | some a, some b =>
-          if !veq ver a b then .pop                           -- l.245: externally managed now
-          else match ver.parse e.version with                 -- l.263
+          if !veq ver a b then .pop                           -- l.247: externally managed now
+          else match ver.parse e.version with                 -- l.265
             | some w => if !veq ver w b then .install else .nothing
             | none => .raise                                  -- InvalidVersion escapes install_requirements
         | _, _ => .raise
@@ -268,7 +290,7 @@ def decideLoop {V} (ver : Ver V) : Table → LoopSt → Option LoopSt
     | some st' => decideLoop ver es st'
 
 inductive Phase1 where
-  | blocked                                   -- l.210–215: requirements present, allow_all_imports off
+  | blocked                                   -- l.212–217: requirements present, allow_all_imports off
   | raised
   | go (rec1 : Rec) (toInstall : List Entry)
 deriving DecidableEq, Repr
@@ -386,7 +408,19 @@ def dropZeros : List Nat → List Nat
     | [] => if x = 0 then [] else [x]
     | ys => x :: ys
 
-def parseNum (s : Str) : Option (List Nat) := (mapOpt component (splitOn '.' s [])).map dropZeros
+/-- the release part `N(.N)*` -/
+def parseRelease (s : Str) : Option (List Nat) := (mapOpt component (splitOn '.' s [])).map dropZeros
+
+/-- `[N!]N(.N)*`: the value is `epoch :: release` (epoch 0 when absent), compared lexicographically by `leNum` –
+the epoch decides first, exactly as in `packaging.version` -/
+def parseNum (s : Str) : Option (List Nat) :=
+  match splitOn '!' s [] with
+  | [r] => (parseRelease r).map (fun l => 0 :: l)
+  | [e, r] =>
+    match component e, parseRelease r with
+    | some n, some l => some (n :: l)
+    | _, _ => none
+  | _ => none
 
 def leNum : List Nat → List Nat → Bool
   | [], _ => true
